@@ -1,47 +1,98 @@
 """C01  Bipartition encoding is exact, canonical and sufficient to rebuild the topology."""
+import itertools
 import random
 
 from .. import ref, gen, bridge
 from ..mon.hooks import Hooks
+from . import _c01_ext as ext
 
 PROP = "C01"
-LEVEL_TEXT = 'Every call of encode_bipartitions made by the workload is hooked and the post-call tree is compared edge by edge with reference clades/splits from a DendroPy-free model; the iff between split-set equality and topology equality is evaluated on pools of re-drawings and non-equivalent trees; rebuilt trees and the predicates are compared with set definitions. Exhaustive over all shapes with <= 5 (quick) / 6 (thorough) leaves x rooting x taxon-to-bit configurations as a workload, random beyond. Held on what was observed - not a proof for all shapes.'
+LEVEL_TEXT = ('Every call of encode_bipartitions made by the workload is hooked and the post-call tree is compared edge by edge with '
+              'reference clades/splits from a DendroPy-free model - on fresh trees and on trees that were modified through the node API '
+              '(structure, tip taxa, rooting state, namespace) after an earlier encoding; rooting states True / False / unspecified; taxa on '
+              'internal and seed nodes and tips without a taxon; the iff between split-set equality and topology equality is evaluated on '
+              'pools of re-drawings, refinement neighbours and non-equivalent trees; rebuilt trees (all orderings of small encodings, '
+              'ascending / descending / shuffled beyond; encodings with duplicate splits and mutable bipartitions; namespaces larger than '
+              'the leaf set) and the predicates (Bipartition and plain-bitmask arguments, the static bitmask functions, whole-tree '
+              'compatibility on never-encoded and on modified trees) are compared with set definitions. Exhaustive over all shapes with '
+              '<= 5 (quick) / 6 (thorough) leaves x rooting x taxon-to-bit configurations as a workload, random beyond. Held on what was '
+              'observed - not a proof for all shapes.')
 LEVEL_NOTE = 'Trusted: vf/ref.py (clades, splits), TaxonNamespace.taxon_bitmask as the given taxon->bit map (C10 monitors it), CPython.'
 LEVEL = "exploration"
-RULE = ("cases = (shape | random tree | pool of re-drawings and non-equivalents | rebuild | predicates) x "
-        "rooting x namespace configuration x encode flags; a case is non-trivial when its tree has >= 1 "
-        "internal edge; distinct = distinct (canonical topology, rooting, taxon->bit assignment, flags)")
+RULE = ("cases = (shape | random tree | history: encode, modify, re-encode | pool of re-drawings, refinement neighbours and "
+        "non-equivalents | boundary: taxon-free and >= 64-leaf trees | rebuild | predicates) x rooting {True, False, unspecified} x "
+        "namespace configuration x taxon placement (tips only | internal/seed taxa | tips without taxon) x encode flags; a case is "
+        "non-trivial when its tree has >= 1 internal edge; distinct = distinct (canonical topology, rooting, taxon->bit assignment, flags)")
 REACH = ["_tree:Tree.encode_bipartitions", "_bipartition:Bipartition.compile_split_bitmask",
          "_bipartition:Bipartition.normalize_bitmask", "_tree:Tree.from_split_bitmasks",
          "_tree:Tree.from_bipartition_encoding", "_bipartition:Bipartition.is_compatible_bitmasks",
          "_bipartition:Bipartition.is_trivial_bitmask", "_bipartition:Bipartition.is_leafset_nested_within",
-         "_tree:Tree.is_compatible_with_bipartition"]
+         "_tree:Tree.is_compatible_with_bipartition", "_bipartition:Bipartition.is_compatible_with",
+         "_bipartition:Bipartition.is_trivial", "_tree:Tree.update_bipartitions"]
 MIN_EVENTS = {"edge-mask-checked": (500, 20000), "iff-pair-checked": (200, 5000),
               "rebuild-checked": (50, 1000), "predicate-checked": (500, 10000),
-              "hook:Tree.encode_bipartitions:return": (100, 3000)}
+              "hook:Tree.encode_bipartitions:return": (100, 3000),
+              # input classes / histories / argument types added after the audit (40-50% of the clean counts)
+              "edge-map-checked": (90000, 650000), "encode-with-unspecified-rooting-checked": (9000, 60000),
+              "re-encode-after-modification-checked": (1100, 7500), "iff-history-pair-checked": (500, 3300),
+              "iff-refinement-pair-checked": (2600, 46000), "predicate-int-argument-checked": (36000, 240000),
+              "predicate-static-checked": (58000, 480000), "rebuild-larger-namespace-checked": (7500, 50000),
+              "tree-compat-modified-tree-checked": (580, 3900), "tree-compat-never-encoded-checked": (600, 4000),
+              "tree-with-taxa-on-internal-nodes-driven": (950, 6800), "tree-with-taxon-less-tips-driven": (500, 3500),
+              "taxon-free-tree-driven": (20, 100), "tree-with-64-or-more-leaves-driven": (20, 100)}
+MIN_EVENTS.update(("history-step:%s" % _st, (60, 480)) for _st in ext.STEPS)
 ASSUMPTIONS = ["TaxonNamespace.taxon_bitmask is taken as the given taxon->bit assignment (its stability is C10)",
-               "reference clades/splits are computed on a DendroPy-free spec extracted from the raw child lists"]
+               "reference clades/splits are computed on a DendroPy-free spec extracted from the raw child lists",
+               "'taxa on the leaves below an edge' is read literally: a taxon carried by an internal or seed node is on no leaf, a tip "
+               "without a taxon contributes no bit; 'the lowest taxon bit present on the tree' is the lowest bit among the tips' taxa",
+               "a tree whose rooting state was never specified (is_rooted None) is an unrooted tree (documented library behaviour)",
+               "a plain integer passed to a Bipartition predicate stands for the bipartition with that split / leafset bitmask "
+               "(the library accepts one explicitly)",
+               "a tree rebuilt over a namespace that is larger than the source's leaf set is judged on its leaf set (= the namespace), "
+               "on the topology it induces on the source's leaves and, when rooted, on having exactly the encoded clades",
+               "edge lengths handed to reconstruction are not judged (the statement is about the topology)"]
+TECHNIQUE = ("runtime monitoring: a hook on Tree.encode_bipartitions judges every call against DendroPy-free reference clades; "
+             "object histories (modify a live tree between encodings), option and argument-type dimensions, differential "
+             "comparison of predicates with set definitions")
 
 NSCFG = ("exact", "larger", "removed", "sorted", "reversed", "readded")
+ROOTINGS = ext.ROOTINGS
+ENCODE_PARAMS = ("suppress_unifurcations", "collapse_unrooted_basal_bifurcation", "suppress_storage", "is_bipartitions_mutable")
+
+
+def rname(rooted):
+    return "rooted" if rooted else "unrooted"
 
 
 def cases(tier, seed):
     nmax = 5 if tier == "quick" else 6
     for n in range(1, nmax + 1):
         for idx in range(len(gen.all_shapes(n))):
-            for rooted in (True, False):
-                cfgs = NSCFG if (n <= 4 or idx % 7 == seed % 7) else ("exact", "removed")
+            for rooted in ROOTINGS:
+                if rooted is None:
+                    # the unspecified rooting state: all configurations on the small shapes, a rotating third beyond
+                    if n > 4 and idx % 3 != seed % 3:
+                        continue
+                    cfgs = NSCFG if n <= 3 else ("exact", "removed")
+                else:
+                    cfgs = NSCFG if (n <= 4 or idx % 7 == seed % 7) else ("exact", "removed")
                 for cfg in cfgs:
                     yield {"kind": "shape", "n": n, "idx": idx, "rooted": rooted, "ns": cfg, "seed": seed}
-    nrand = 6000 if tier == "quick" else 40000
+    nrand = 6000 if tier == "quick" else 30000
     for i in range(nrand):
         yield {"kind": "random", "i": i, "seed": seed}
+    nhist = 2000 if tier == "quick" else 15000
+    for i in range(nhist):
+        yield {"kind": "history", "i": i, "seed": seed}
     npool = 1500 if tier == "quick" else 10000
     for i in range(npool):
         yield {"kind": "pool", "i": i, "seed": seed}
     npred = 1500 if tier == "quick" else 10000
     for i in range(npred):
         yield {"kind": "pred", "i": i, "seed": seed}
+    nedge = 96 if tier == "quick" else 480
+    for i in range(nedge):
+        yield {"kind": "boundary", "i": i, "seed": seed}
 
 
 # --------------------------------------------------------------------------------------
@@ -109,8 +160,9 @@ def expected_split(leafmask, treemask, rooted):
     return leafmask & treemask
 
 
-def check_encoding(ctx, tree, ns, rooted, where, pre_topology=None, flags=None):
-    """oracle (i): per-edge masks of the post-call tree against the reference clades."""
+def check_encoding(ctx, tree, ns, rooted, where, pre_topology=None, flags=None, as_user=False):
+    """oracle (i): per-edge masks of the post-call tree against the reference clades.
+    as_user: the edge maps are read as a caller would read them (no reset of the tree's caches by the monitor)."""
     bits = bits_of(ns)
     try:
         spec, nodes = bridge.extract(tree, with_nodes=True)
@@ -120,13 +172,19 @@ def check_encoding(ctx, tree, ns, rooted, where, pre_topology=None, flags=None):
     nm = bridge.node_map(nodes)
     cl = ref.clades(spec)
     treemask = mask(cl[-1][1], bits)
+    # clause by clause over all edges, so that the key names the clause that failed first in the statement's order
     seen_bips = []
+    per_edge = []
     for s, c in cl:
         nd = nm[id(s)]
         e = nd._edge
         b = e.bipartition
         lm = mask(c, bits)
         ctx.ev("edge-mask-checked")
+        if b is None:
+            ctx.violation("%s|edge-without-bipartition" % where, "an edge of the encoded tree has no bipartition",
+                          {"tree": ref.to_newick(spec), "clade": sorted(c), "flags": flags})
+            return None
         if b._leafset_bitmask != lm or e.leafset_bitmask != lm:
             ctx.violation("%s|leafset-bitmask-wrong" % where,
                           "leafset bitmask %s != taxa below edge %s" % (bin(b._leafset_bitmask or 0), bin(lm)),
@@ -142,18 +200,23 @@ def check_encoding(ctx, tree, ns, rooted, where, pre_topology=None, flags=None):
                           "bitmask_taxa_list(%s) = %s, taxa below the edge %s" % (bin(b._leafset_bitmask or 0), decoded, sorted(c)),
                           {"tree": ref.to_newick(spec), "bits": bits, "flags": flags})
             return None
+        per_edge.append((e, b, lm, c))
+        seen_bips.append(b)
+    for e, b, lm, c in per_edge:
         sm = expected_split(lm, treemask, rooted)
         if b.split_bitmask != sm or e.split_bitmask != sm:
-            ctx.violation("%s|split-bitmask-wrong|%s" % (where, "rooted" if rooted else "unrooted"),
+            ctx.violation("%s|split-bitmask-wrong|%s" % (where, rname(rooted)),
                           "split bitmask %s != expected %s" % (bin(b.split_bitmask or 0), bin(sm)),
-                          {"tree": ref.to_newick(spec), "clade": sorted(c), "bits": bits, "flags": flags})
+                          {"tree": ref.to_newick(spec), "clade": sorted(c), "bits": bits, "flags": flags,
+                           "is_rooted": repr(tree._is_rooted)})
             return None
+    for e, b, lm, c in per_edge:
+        # (a tree without any taxon-bearing tip: the library leaves the field None; the empty set either way)
         if (b._tree_leafset_bitmask or 0) != treemask:
             ctx.violation("%s|tree-leafset-bitmask-wrong" % where,
                           "tree leafset bitmask %s != %s" % (bin(b._tree_leafset_bitmask or 0), bin(treemask)),
                           {"tree": ref.to_newick(spec), "bits": bits})
             return None
-        seen_bips.append(b)
     enc = tree.bipartition_encoding
     mutable = bool(flags and flags.get("is_bipartitions_mutable"))
     if enc is not None:
@@ -163,14 +226,25 @@ def check_encoding(ctx, tree, ns, rooted, where, pre_topology=None, flags=None):
                           {"tree": ref.to_newick(spec), "flags": flags})
             return None
         sbem = None
-        if not mutable:     # (mutable bipartitions are documented as unhashable: no edge map can be asked for)
+        if treemask == 0:
+            # without a taxon-bearing tip the bipartitions are never frozen by the library (not a clause of the statement)
+            ctx.note("edge-map-of-a-taxon-free-tree-not-judged")
+        elif not mutable:     # (mutable bipartitions are documented as unhashable: no edge map can be asked for)
             try:
-                tree._split_bitmask_edge_map = None
-                tree._bipartition_edge_map = None
+                if not as_user:
+                    tree._split_bitmask_edge_map = None
+                    tree._bipartition_edge_map = None
                 sbem = tree.split_bitmask_edge_map
             except Exception as e:
                 ctx.violation("%s|edge-map-unbuildable|%s" % (where, type(e).__name__),
                               "split_bitmask_edge_map cannot be built from the encoded tree: %s" % e,
+                              {"tree": ref.to_newick(spec), "flags": flags})
+                return None
+        if sbem is not None:
+            ctx.ev("edge-map-checked")
+            want_keys = set(nm[id(s)]._edge.bipartition.split_bitmask for s, _c in cl)
+            if set(sbem.keys()) != want_keys:
+                ctx.violation("%s|split_bitmask_edge_map-wrong" % where, "keys of the map are not the splits of the tree's edges",
                               {"tree": ref.to_newick(spec), "flags": flags})
                 return None
         for s, c in (cl if sbem is not None else []):
@@ -189,23 +263,42 @@ def check_encoding(ctx, tree, ns, rooted, where, pre_topology=None, flags=None):
     return spec
 
 
-def install_encode_hook(ctx, hooks):
+def bound_flags(args, kw):
+    """the encode flags as the callee sees them (positional arguments bound to their names)"""
+    flags = dict(zip(ENCODE_PARAMS, args))
+    flags.update(kw)
+    return flags
+
+
+def install_encode_hook(ctx, hooks, state=None):
+    """state: optional dict; state['where'] names the phase of the driving case (default 'encode'), it becomes the
+    operation part of the violation keys so that a stale re-encoding is told from a wrong first encoding."""
     import dendropy
+    state = state if state is not None else {}
 
     def pre(tree, args, kw):
         try:
             spec = bridge.extract(tree)
         except bridge.ExtractError:
             return None
-        return ref.topology(spec, bool(tree._is_rooted))
+        return (ref.topology(spec, bool(tree._is_rooted)), tree._is_rooted)
 
     def post(snap, tree, args, kw, result, exc):
+        where = state.get("where", "encode")
         if exc is not None:
-            ctx.unexpected("encode_bipartitions", exc)
+            ctx.unexpected("encode_bipartitions" if where == "encode" else "%s_bipartitions" % where, exc,
+                           {"flags": bound_flags(args, kw)})
             return
-        if snap is None or tree._seed_node is None:
+        if snap is None:
+            # every tree of this workload is built by the harness or by the library's own reconstruction: must not occur
+            ctx.mark_inconclusive("tree handed to encode_bipartitions could not be walked before the call")
             return
-        flags = dict(kw)
+        if tree._seed_node is None:
+            ctx.note("encode-on-a-tree-without-seed-node-not-judged")
+            return
+        flags = bound_flags(args, kw)
+        if snap[1] is None:
+            ctx.ev("encode-with-unspecified-rooting-checked")
         # documented return value: the stored list, or None when storage is suppressed
         ctx.ev("encode-return-checked")
         if flags.get("suppress_storage"):
@@ -215,7 +308,7 @@ def install_encode_hook(ctx, hooks):
         elif result is None or result is not tree.bipartition_encoding:
             ctx.violation("encode|return-value-is-not-the-stored-encoding", "documented: the stored list is returned",
                           {"flags": flags, "returned": type(result).__name__})
-        check_encoding(ctx, tree, tree.taxon_namespace, bool(tree._is_rooted), "encode", snap, flags)
+        check_encoding(ctx, tree, tree.taxon_namespace, bool(tree._is_rooted), where, snap[0], flags, as_user=True)
     hooks.install(dendropy.Tree, "encode_bipartitions", pre=pre, post=post)
 
 
@@ -229,6 +322,8 @@ FLAGSETS = ({}, {"suppress_unifurcations": False}, {"collapse_unrooted_basal_bif
             # the edges must carry the full encoding also when no list is asked for (seeded change C01c)
             {"suppress_storage": True}, {"suppress_storage": True, "is_bipartitions_mutable": True},
             {"suppress_storage": True, "suppress_unifurcations": False})
+# flag sets whose stored list is also handed to reconstruction (duplicate splits, mutable bipartitions)
+REBUILD_FLAGSETS = (FLAGSETS[0], FLAGSETS[3], FLAGSETS[4])
 
 
 def edge_split_set(tree):
@@ -237,115 +332,342 @@ def edge_split_set(tree):
     return frozenset(nd._edge.bipartition.split_bitmask for _s, nd in nodes)
 
 
-def rebuild_check(ctx, tree, spec, ns, rooted, rng, labels):
-    """oracle (iii): rebuilt tree has the reference topology (leaf set == namespace)."""
+def encode_by_route(tree, flags, rng):
+    """the same request through the API routes: keywords, positional arguments, the update_bipartitions alias"""
+    route = rng.choice(("kw", "kw", "positional", "alias"))
+    if route == "kw":
+        return tree.encode_bipartitions(**flags)
+    if route == "alias":
+        return tree.update_bipartitions(**flags)
+    defaults = (True, True, False, False)
+    args = [flags.get(k, d) for k, d in zip(ENCODE_PARAMS, defaults)]
+    while args and args[-1] == defaults[len(args) - 1]:
+        args.pop()
+    return tree.encode_bipartitions(*args)
+
+
+def orderings(enc, rng, mode):
+    """orderings of an encoding handed to reconstruction: all of them when the encoding is small and mode == 'all';
+    otherwise ascending and descending masks (the adversarial ones for a greedy insertion) and shuffles"""
+    if mode == "all" and len(enc) <= 5:
+        return [list(p) for p in itertools.permutations(enc)]
+    key = lambda b: (b.split_bitmask or 0)
+    out = []
+    sh = list(enc)
+    rng.shuffle(sh)
+    out.append(sh)
+    if mode == "all":
+        out.append(sorted(enc, key=key))
+        out.append(sorted(enc, key=key, reverse=True))
+        sh = list(enc)
+        rng.shuffle(sh)
+        out.append(sh)
+    elif len(enc) > 40:
+        # large trees: one ordering per tree (reconstruction is quadratic), shuffled or sorted
+        if rng.random() < 0.5:
+            out = [sorted(enc, key=key, reverse=rng.random() < 0.5)]
+    else:
+        out.append(sorted(enc, key=key, reverse=rng.random() < 0.5))
+    return out
+
+
+def rebuild_check(ctx, tree, spec, ns, rooted, rng, labels, mode="some"):
+    """oracle (iii): a tree rebuilt from the encoding, in any order, has the reference topology over the namespace."""
     import dendropy
-    if set(t.label for t in ns) != set(labels) or len(labels) < 1:
-        ctx.note("rebuild-with-partial-leafset-not-judged")
-        return
+    nslabels = sorted(t.label for t in ns)
+    exact = nslabels == sorted(labels)
     want = ref.topology(spec, rooted)
-    enc = list(tree.encode_bipartitions())
-    rng.shuffle(enc)
-    for route in ("encoding", "bitmasks"):
-        try:
-            if route == "encoding":
-                t2 = dendropy.Tree.from_bipartition_encoding(enc, taxon_namespace=ns, is_rooted=rooted)
+    if tree.bipartition_encoding is not None and len(tree.bipartition_encoding) > 0:
+        enc = list(tree.bipartition_encoding)          # as encoded by the case: may hold duplicates / mutable bipartitions
+    else:
+        enc = list(tree.encode_bipartitions())
+    full = frozenset(nslabels)
+    if rooted and not exact:
+        want_clades = frozenset(want) | frozenset(frozenset([x]) for x in nslabels) | (frozenset([full]) if full else frozenset())
+    tag = rname(rooted)
+    k = 0
+    for order in orderings(enc, rng, mode):
+        k += 1
+        routes = ("encoding", "bitmasks") if (mode != "all" or k <= 4) else (("encoding",) if k % 2 else ("bitmasks",))
+        for route in routes:
+            kw = {}
+            # rooting argument: the documented bool; for an unrooted source the default is used now and then
+            if rooted or rng.random() < 0.7:
+                kw["is_rooted"] = bool(rooted)
+            with_lengths = rng.random() < 0.25
+            try:
+                if route == "encoding":
+                    if with_lengths:
+                        kw["edge_lengths"] = [float(i + 1) for i in range(len(order))]
+                    t2 = dendropy.Tree.from_bipartition_encoding(order, taxon_namespace=ns, **kw)
+                else:
+                    if with_lengths:
+                        kw["split_edge_lengths"] = dict((b.split_bitmask, float(i + 1)) for i, b in enumerate(order))
+                    t2 = dendropy.Tree.from_split_bitmasks([b.split_bitmask for b in order], taxon_namespace=ns, **kw)
+            except Exception as e:
+                ctx.unexpected("from_%s" % route, e, {"tree": ref.to_newick(spec), "kw": sorted(kw), "namespace": nslabels})
+                continue
+            try:
+                s2 = bridge.extract(t2)
+            except bridge.ExtractError as e:
+                ctx.violation("rebuild|malformed", str(e))
+                continue
+            ctx.ev("rebuild-checked")
+            det = {"source": ref.to_newick(spec), "rebuilt": ref.to_newick(s2), "namespace": nslabels}
+            if sorted(x[0] for x in ref.leaves(s2) if x[0] is not None) != nslabels or \
+                    (nslabels and any(x[0] is None for x in ref.leaves(s2))):
+                ctx.violation("rebuild|leaf-taxa-are-not-the-taxa-of-the-namespace|%s" % route,
+                              "rebuilt tree does not have every taxon of the namespace on exactly one tip", det)
+                continue
+            if exact:
+                if ref.topology(s2, rooted) != want:
+                    ctx.violation("rebuild|topology-differs|%s|%s" % (route, tag),
+                                  "tree rebuilt from re-ordered encoding differs from source", det)
             else:
-                t2 = dendropy.Tree.from_split_bitmasks([b.split_bitmask for b in enc], taxon_namespace=ns,
-                                                       is_rooted=rooted)
-        except Exception as e:
-            ctx.unexpected("from_%s" % route, e, {"tree": ref.to_newick(spec)})
-            continue
-        try:
-            s2 = bridge.extract(t2)
-        except bridge.ExtractError as e:
-            ctx.violation("rebuild|malformed", str(e))
-            continue
-        ctx.ev("rebuild-checked")
-        got = ref.topology(s2, rooted)
-        if got != want or sorted(ref.leaf_taxa(s2)) != sorted(labels):
-            ctx.violation("rebuild|topology-differs|%s|%s" % (route, "rooted" if rooted else "unrooted"),
-                          "tree rebuilt from shuffled encoding differs from source",
-                          {"source": ref.to_newick(spec), "rebuilt": ref.to_newick(s2)})
-        if bool(t2.is_rooted) != bool(rooted):
-            ctx.violation("rebuild|rooting-state", "rebuilt tree has other rooting state")
+                ctx.ev("rebuild-larger-namespace-checked")
+                ind = ref.induced(s2, labels) if labels else None
+                if labels and (ind is None or ref.topology(ind, rooted) != want):
+                    ctx.violation("rebuild|topology-differs|%s|%s|namespace-larger-than-leafset" % (route, tag),
+                                  "the rebuilt tree does not induce the source topology on the source's leaves", det)
+                elif rooted and ref.rooted_clades(s2) != want_clades:
+                    ctx.violation("rebuild|clades-over-the-namespace-differ|%s|rooted" % route,
+                                  "rebuilt rooted tree has not exactly the encoded clades (+ the tips and the root)", det)
+            if bool(t2.is_rooted) != bool(rooted):
+                ctx.violation("rebuild|rooting-state", "rebuilt tree has other rooting state")
 
 
-def run_one_tree(ctx, spec, rooted, cfg, rng, flags, do_rebuild=True):
+def run_one_tree(ctx, spec, rooted, cfg, rng, flags, do_rebuild=True, extra=(), mode="some", route_rng=None, ns_rng=None):
+    """rooted: True / False / None (unspecified); extra: labels of taxa that are in the namespace but on no tip;
+    ns_rng: generator of the namespace configuration when it must be the same for several trees"""
     labels = sorted(ref.leaf_taxa(spec))
-    ns = make_ns(labels, cfg, rng)
+    ns_rng = ns_rng or rng
+    ns = make_ns(ext.interleave(labels, extra, ns_rng) if extra else labels, cfg, ns_rng)
     tree = bridge.build_tree(spec, ns, rooted)
     try:
-        tree.encode_bipartitions(**flags)
+        if route_rng is not None:
+            encode_by_route(tree, flags, route_rng)
+        else:
+            tree.encode_bipartitions(**flags)
     except Exception:
+        ctx.note("encode-raised:reported-by-the-hook")
         return  # reported by the hook
     s_after = bridge.extract(tree)
-    internal = len(ref.nontrivial_splits(s_after, rooted))
+    rb = bool(tree._is_rooted)
+    internal = len(ref.nontrivial_splits(s_after, rb))
     if internal >= 1:
         ctx.nontrivial(("enc", ref.canon(s_after, lengths=False), rooted, cfg, sorted(flags.items()),
                         sorted(bits_of(ns).items())))
     if do_rebuild:
-        rebuild_check(ctx, tree, s_after, ns, rooted, rng, labels)
+        rebuild_check(ctx, tree, s_after, ns, rb, rng, labels, mode)
     return tree
 
 
 def run_case(case, ctx):
     rng = random.Random("%s/%s" % (case["seed"], sorted(case.items())))
+    state = {"where": "encode"}
     with Hooks(ctx) as hooks:
-        install_encode_hook(ctx, hooks)
+        install_encode_hook(ctx, hooks, state)
         kind = case["kind"]
         if kind == "shape":
-            shape = gen.all_shapes(case["n"])[case["idx"]]
-            spec = gen.shape_to_spec(shape)
-            variants = [spec, gen.shuffle_children(spec, rng), gen.insert_unary(spec, rng, 0.4)]
-            if not case["rooted"]:
-                internal = [k for k, nd in enumerate(ref.preorder(spec)) if nd[3]]
-                variants += [ref.reroot(spec, k) for k in internal]
-            sets = []
-            for v in variants:
-                for flags in (FLAGSETS if case["n"] <= 4 else FLAGSETS[:2]):
-                    t = run_one_tree(ctx, v, case["rooted"], case["ns"], random.Random(1), flags,
-                                     do_rebuild=(flags == {}))
-                    if t is not None:
-                        if t.bipartition_encoding is not None:
-                            stored = frozenset(b.split_bitmask for b in t.bipartition_encoding)
-                            if stored != edge_split_set(t):
-                                ctx.violation("encode|stored-list-differs-from-the-edges'-splits",
-                                              "bipartition_encoding and the edges disagree", {"tree": ref.to_newick(v), "flags": flags})
-                        sets.append((edge_split_set(t), v, flags))
-            # all re-drawings of one topology on the same taxon->bit map: equal split sets
-            if case["rooted"]:
-                groups = {}
-                for ss, v, fl in sets:
-                    groups.setdefault(ref.topology(v, True), []).append((ss, v, fl))
-            else:
-                groups = {None: sets}
-            for g in groups.values():
-                for ss, v, fl in g[1:]:
-                    ctx.ev("iff-pair-checked")
-                    if ss != g[0][0]:
-                        ctx.violation("iff|redrawing-changes-split-set|%s" % ("rooted" if case["rooted"] else "unrooted"),
-                                      "re-drawing of the same topology has a different split set",
-                                      {"a": ref.to_newick(g[0][1]), "b": ref.to_newick(v), "flags": fl})
-            ctx.sample({"kind": "shape", "tree": ref.to_newick(spec), "rooted": case["rooted"], "ns": case["ns"]}) \
-                if case["idx"] == 0 and case["ns"] == "removed" else None
+            run_shape(ctx, case, rng)
         elif kind == "random":
-            n = rng.choice([2, 3, 5, 8, 12, 15]) if ctx.tier == "quick" else rng.choice([2, 3, 7, 15, 30, 50, 80])
-            shape = rng.choice([None, None, None, "caterpillar", "star", "balanced"])
-            spec = gen.random_spec(rng, n, p_poly=rng.choice([0, 0.3, 0.6]), p_unary=rng.choice([0, 0, 0.2]),
-                                   shape=shape)
-            gen.decorate_lengths(spec, rng, rng.choice(gen.LENGTH_PATTERNS))
-            rooted = rng.random() < 0.5
-            flags = rng.choice(FLAGSETS)
-            run_one_tree(ctx, spec, rooted, rng.choice(NSCFG), rng, flags)
-            if case["i"] < 3:
-                ctx.sample({"kind": "random", "tree": ref.to_newick(spec), "rooted": rooted, "flags": flags})
+            run_random(ctx, case, rng)
+        elif kind == "history":
+            run_history(ctx, rng, state)
         elif kind == "pool":
             run_pool(ctx, rng)
         elif kind == "pred":
-            run_pred(ctx, rng)
+            run_pred(ctx, rng, state)
+        elif kind == "boundary":
+            run_boundary(ctx, case, rng)
 
 
+def run_shape(ctx, case, rng):
+    rooted = case["rooted"]
+    rb = bool(rooted)
+    n = case["n"]
+    shape = gen.all_shapes(n)[case["idx"]]
+    spec = gen.shape_to_spec(shape)
+    variants = [spec, gen.shuffle_children(spec, rng), gen.insert_unary(spec, rng, 0.4)]
+    if not rb:
+        internal = [k for k, nd in enumerate(ref.preorder(spec)) if nd[3]]
+        variants += [ref.reroot(spec, k) for k in internal]
+    sets = []
+    for vi, v in enumerate(variants):
+        for flags in (FLAGSETS if n <= 4 else FLAGSETS[:2]):
+            # (one taxon->bit assignment for the whole case; the orderings handed to reconstruction vary)
+            t = run_one_tree(ctx, v, rooted, case["ns"], rng, flags, ns_rng=random.Random(1),
+                             do_rebuild=(flags in REBUILD_FLAGSETS), mode=("all" if vi == 0 and flags == {} else "some"))
+            if t is not None:
+                if t.bipartition_encoding is not None:
+                    stored = frozenset(b.split_bitmask for b in t.bipartition_encoding)
+                    if stored != edge_split_set(t):
+                        ctx.violation("encode|stored-list-differs-from-the-edges'-splits",
+                                      "bipartition_encoding and the edges disagree", {"tree": ref.to_newick(v), "flags": flags})
+                sets.append((edge_split_set(t), v, flags))
+    # all re-drawings of one topology on the same taxon->bit map: equal split sets
+    if rb:
+        groups = {}
+        for ss, v, fl in sets:
+            groups.setdefault(ref.topology(v, True), []).append((ss, v, fl))
+    else:
+        groups = {None: sets}
+    for g in groups.values():
+        for ss, v, fl in g[1:]:
+            ctx.ev("iff-pair-checked")
+            if ss != g[0][0]:
+                ctx.violation("iff|redrawing-changes-split-set|%s" % rname(rb),
+                              "re-drawing of the same topology has a different split set",
+                              {"a": ref.to_newick(g[0][1]), "b": ref.to_newick(v), "flags": fl, "is_rooted": repr(rooted)})
+    # the other direction: every refinement neighbour (one internal edge collapsed) and the base have
+    # different topologies, hence different split sets (same taxon->bit assignment)
+    if sets:
+        nbs = [(ref.topology(spec, rb), sets[0][0], spec)]
+        for v in ext.collapse_neighbours(spec):
+            t = run_one_tree(ctx, v, rooted, case["ns"], rng, {}, do_rebuild=False, ns_rng=random.Random(1))
+            if t is not None:
+                nbs.append((ref.topology(v, rb), edge_split_set(t), v))
+        for (ta, sa, va), (tb, sb, vb) in itertools.combinations(nbs, 2):
+            ctx.ev("iff-pair-checked")
+            ctx.ev("iff-refinement-pair-checked")
+            if (ta == tb) != (sa == sb):
+                ctx.violation("iff|%s|%s" % ("equal-sets-different-topology" if sa == sb else "same-topology-different-sets", rname(rb)),
+                              "split-set equality disagrees with topology equality (refinement neighbours)",
+                              {"a": ref.to_newick(va), "b": ref.to_newick(vb), "is_rooted": repr(rooted)})
+    ctx.sample({"kind": "shape", "tree": ref.to_newick(spec), "rooted": repr(rooted), "ns": case["ns"]}) \
+        if case["idx"] == 0 and case["ns"] == "removed" else None
+
+
+def decorated(spec, rng, ctx=None):
+    """taxon placement: tips only (half of the time) | taxa on internal / seed nodes | tips without taxon | both"""
+    r = rng.random()
+    if r < 0.5:
+        return spec, []
+    p_int = rng.choice([0.3, 0.7]) if r < 0.8 or r >= 0.9 else 0.0
+    seed_taxon = p_int > 0 and rng.random() < 0.5
+    bare = r >= 0.8
+    s, given = ext.decorate_taxa(spec, rng, p_internal=p_int, seed_taxon=seed_taxon,
+                                 n_bare=(rng.randint(0, 2) if bare else 0), n_strip=(rng.randint(0, 2) if bare else 0))
+    if ctx is not None:
+        if given:
+            ctx.ev("tree-with-taxa-on-internal-nodes-driven")
+        if any(x[0] is None for x in ref.leaves(s)):
+            ctx.ev("tree-with-taxon-less-tips-driven")
+    return s, given
+
+
+def run_random(ctx, case, rng):
+    n = rng.choice([2, 3, 5, 8, 12, 15]) if ctx.tier == "quick" else rng.choice([2, 3, 7, 15, 30, 50, 80])
+    shape = rng.choice([None, None, None, "caterpillar", "star", "balanced"])
+    spec = gen.random_spec(rng, n, p_poly=rng.choice([0, 0.3, 0.6]), p_unary=rng.choice([0, 0, 0.2]),
+                           shape=shape)
+    gen.decorate_lengths(spec, rng, rng.choice(gen.LENGTH_PATTERNS))
+    spec, given = decorated(spec, rng, ctx)
+    rooted = rng.choice(ROOTINGS)
+    flags = rng.choice(FLAGSETS)
+    run_one_tree(ctx, spec, rooted, rng.choice(NSCFG), rng, flags, extra=given, route_rng=rng)
+    if case["i"] < 3:
+        ctx.sample({"kind": "random", "tree": ref.to_newick(spec), "rooted": repr(rooted), "flags": flags})
+
+
+def run_boundary(ctx, case, rng):
+    """leaf counts 0 (no taxon on the tree at all, empty or non-empty namespace) and >= 64 (beyond a machine word)"""
+    import dendropy
+    i = case["i"]
+    rooted = ROOTINGS[i % 3]
+    if i % 2 == 0:
+        k = (i // 6) % 4
+        spec = [ref.S(None), ref.S(None, [ref.S(None), ref.S(None)]), ref.S(None, [ref.S(None, [ref.S(None)])]),
+                ref.S(None, [ref.S(None), ref.S(None, [ref.S(None), ref.S(None)]), ref.S(None)])][k]
+        ns = dendropy.TaxonNamespace([] if (i // 2) % 2 == 0 else ["A", "B", "C"])
+        flags = FLAGSETS[(i // 3) % len(FLAGSETS)]
+        tree = bridge.build_tree(spec, ns, rooted)
+        ctx.ev("taxon-free-tree-driven")
+        try:
+            tree.encode_bipartitions(**flags)
+        except Exception:
+            ctx.note("encode-raised:reported-by-the-hook")
+            return
+        s_after = bridge.extract(tree)
+        rebuild_check(ctx, tree, s_after, ns, bool(tree._is_rooted), rng, [], "some")
+    else:
+        n = rng.choice([64, 65, 70, 100, 129]) if ctx.tier == "quick" else rng.choice([64, 65, 128, 129, 200, 300])
+        spec = gen.random_spec(rng, n, p_poly=rng.choice([0, 0.3]), p_unary=rng.choice([0, 0.1]),
+                               shape=rng.choice([None, None, "caterpillar", "balanced"]))
+        ctx.ev("tree-with-64-or-more-leaves-driven")
+        run_one_tree(ctx, spec, rooted, rng.choice(NSCFG), rng, rng.choice(FLAGSETS[:5]))
+
+
+# -------------------------------------------------------------------------------------- histories
+def run_history(ctx, rng, state):
+    """encode; modify the live tree through the node API / the namespace; encode again (random flags, random route).
+    The hook judges every call against the tree as it is THEN; the iff is evaluated between consecutive states."""
+    n = rng.choice([3, 4, 5, 6, 8, 12]) if ctx.tier == "quick" else rng.choice([3, 4, 6, 9, 14, 25, 40])
+    spec = gen.random_spec(rng, n, p_poly=rng.choice([0, 0.3, 0.6]), p_unary=rng.choice([0, 0, 0.2]))
+    spec, given = decorated(spec, rng, ctx)
+    rooted = rng.choice(ROOTINGS)
+    labels = sorted(ref.leaf_taxa(spec))
+    cfg = rng.choice(NSCFG)
+    ns = make_ns(ext.interleave(labels, given, rng) if given else labels, cfg, rng)
+    tree = bridge.build_tree(spec, ns, rooted)
+    spare = ["N%d" % k for k in range(6)]
+    state["where"] = "encode"
+    flags = rng.choice(FLAGSETS)
+    try:
+        encode_by_route(tree, flags, rng)
+    except Exception:
+        ctx.note("encode-raised:reported-by-the-hook")
+        return
+
+    def snapshot():
+        s = bridge.extract(tree)
+        rb = bool(tree._is_rooted)
+        lv = sorted(ref.leaf_taxa(s))
+        b = bits_of(ns)
+        return {"spec": s, "rooted": rb, "leaves": lv, "bits": tuple(b[x] for x in lv),
+                "top": ref.topology(s, rb), "splits": edge_split_set(tree) - frozenset([0])}
+    prev = snapshot()
+    for _round in range(rng.randint(1, 3)):
+        done = []
+        for _ in range(rng.randint(1, 2)):
+            step = rng.choice(ext.STEPS)
+            what = ext.apply_step(tree, ns, step, rng, spare)
+            if what is not None:
+                done.append(step)
+        if not done:
+            ctx.note("history-step-not-applicable")
+            continue
+        state["where"] = "re-encode"
+        flags = rng.choice(FLAGSETS)
+        try:
+            encode_by_route(tree, flags, rng)
+        except Exception:
+            ctx.note("encode-raised:reported-by-the-hook")
+            return
+        finally:
+            state["where"] = "encode"
+        ctx.ev("re-encode-after-modification-checked")
+        for st in done:
+            ctx.ev("history-step:%s" % st)
+        cur = snapshot()
+        ctx.nontrivial(("hist", ref.canon(prev["spec"], False), ref.canon(cur["spec"], False), tuple(done), repr(tree._is_rooted),
+                        sorted(flags.items())))
+        # same leaf taxa, same taxon->bit map, same rooting state: equal split sets iff same topology
+        # (the empty clade of taxon-less tips / of the root of an unrooted tree is not a split of the taxa: left out)
+        if cur["leaves"] == prev["leaves"] and cur["bits"] == prev["bits"] and cur["rooted"] == prev["rooted"]:
+            ctx.ev("iff-pair-checked")
+            ctx.ev("iff-history-pair-checked")
+            same_sets = cur["splits"] == prev["splits"]
+            same_top = cur["top"] == prev["top"]
+            if same_sets != same_top:
+                ctx.violation("iff|%s|%s|modified-tree" % ("equal-sets-different-topology" if same_sets else "same-topology-different-sets",
+                                                           rname(cur["rooted"])),
+                              "split sets before / after a modification disagree with the topologies before / after",
+                              {"before": ref.to_newick(prev["spec"]), "after": ref.to_newick(cur["spec"]), "steps": done, "flags": flags})
+        prev = cur
+
+
+# -------------------------------------------------------------------------------------- pools
 def make_pool(rng, n, rooted):
     base = gen.random_spec(rng, n, p_poly=rng.choice([0, 0.3]))
     pool = [base]
@@ -364,24 +686,34 @@ def make_pool(rng, n, rooted):
         pool.append(v)
     names = ref.leaf_taxa(base)
     pool.append(gen.random_spec(rng, n, p_poly=0.2, names=names))
+    # refinement neighbours: one internal edge of the base collapsed
+    nb = ext.collapse_neighbours(base)
+    rng.shuffle(nb)
+    pool.extend(nb[:2])
     return pool
 
 
 def run_pool(ctx, rng):
     n = rng.choice([4, 5, 6, 8, 10]) if ctx.tier == "quick" else rng.choice([4, 5, 6, 9, 14, 25, 40])
-    rooted = rng.random() < 0.5
-    pool = make_pool(rng, n, rooted)
+    rooted = rng.choice(ROOTINGS)
+    rb = bool(rooted)
+    pool = make_pool(rng, n, rb)
     labels = ref.leaf_taxa(pool[0])
-    ns = make_ns(labels, rng.choice(NSCFG), rng)
+    # internal-node taxa differ from drawing to drawing: they must not matter
+    extra = ["I%d" % k for k in range(3)] if rng.random() < 0.3 else []
+    ns = make_ns(ext.interleave(sorted(labels), extra, rng) if extra else labels, rng.choice(NSCFG), rng)
     flags = rng.choice(FLAGSETS[:4])
     items = []
     for sp in pool:
+        if extra:
+            sp = ext.decorate_taxa(sp, rng, p_internal=0.4, seed_taxon=rng.random() < 0.3)[0]
         tree = bridge.build_tree(sp, ns, rooted)
         try:
             ss = split_set(tree, **flags)
         except Exception:
+            ctx.note("encode-raised:reported-by-the-hook")
             continue
-        items.append((ss, ref.topology(sp, rooted), sp))
+        items.append((ss, ref.topology(sp, rb), sp))
     for i in range(len(items)):
         for j in range(i + 1, len(items)):
             a, b = items[i], items[j]
@@ -390,33 +722,41 @@ def run_pool(ctx, rng):
             same_top = a[1] == b[1]
             if same_sets != same_top:
                 ctx.violation("iff|%s|%s" % ("equal-sets-different-topology" if same_sets else "same-topology-different-sets",
-                                             "rooted" if rooted else "unrooted"),
+                                             rname(rb)),
                               "split-set equality disagrees with topology equality",
-                              {"a": ref.to_newick(a[2]), "b": ref.to_newick(b[2]), "flags": flags})
+                              {"a": ref.to_newick(a[2]), "b": ref.to_newick(b[2]), "flags": flags, "is_rooted": repr(rooted)})
             if not same_top:
                 ctx.nontrivial(("iff-neq", ref.canon(a[2], False), ref.canon(b[2], False), rooted))
             else:
                 ctx.nontrivial(("iff-eq", ref.canon(a[2], False), ref.ordered(b[2], False), rooted))
 
 
-def run_pred(ctx, rng):
+# -------------------------------------------------------------------------------------- predicates
+def run_pred(ctx, rng, state):
     """oracle (iv): predicates against set definitions."""
     import dendropy
+    from dendropy.datamodel.treemodel import Bipartition
     n = rng.choice([4, 5, 6, 8]) if ctx.tier == "quick" else rng.choice([4, 5, 6, 8, 12, 20])
-    rooted = rng.random() < 0.5
+    rooted = rng.choice(ROOTINGS)
+    rb = bool(rooted)
+    tag = rname(rb)
     base = gen.random_spec(rng, n, p_poly=0.2)
     others = [gen.nni(base, rng), gen.spr(base, rng), gen.random_spec(rng, n, names=ref.leaf_taxa(base))]
     labels = ref.leaf_taxa(base)
     ns = make_ns(labels, rng.choice(NSCFG), rng)
     bits = bits_of(ns)
     full = frozenset(labels)
+    treemask = mask(full, bits)
+
+    def edge_bips(t):
+        s2, nodes = bridge.extract(t, with_nodes=True)
+        nm = bridge.node_map(nodes)
+        return s2, [(nm[id(s)]._edge.bipartition, c) for s, c in ref.clades(s2)]
     trees = []
     for sp in [base] + others:
         t = bridge.build_tree(sp, ns, rooted)
         t.encode_bipartitions()
-        s2, nodes = bridge.extract(t, with_nodes=True)
-        nm = bridge.node_map(nodes)
-        bl = [(nm[id(s)]._edge.bipartition, c) for s, c in ref.clades(s2)]
+        s2, bl = edge_bips(t)
         trees.append((t, s2, bl))
 
     def sides(c):
@@ -425,7 +765,7 @@ def run_pred(ctx, rng):
     def compatible(c1, c2):
         a1, a0 = sides(c1)
         b1, b0 = sides(c2)
-        if rooted:
+        if rb:
             # clades of a rooted tree: can coexist iff disjoint or nested
             return (not (a1 & b1)) or (not (a1 & b0)) or (not (a0 & b1))
         # splits of an unrooted tree: one of the four intersections is empty
@@ -436,34 +776,97 @@ def run_pred(ctx, rng):
         want = min(len(c), len(full - c)) <= 1
         if bool(b.is_trivial()) != want:
             ctx.violation("predicate|is_trivial", "is_trivial()=%s for clade %s of %d taxa" % (b.is_trivial(), sorted(c), len(full)))
+        ctx.ev("predicate-static-checked")
+        got = Bipartition.is_trivial_bitmask(b.split_bitmask, treemask)
+        if bool(got) != want:
+            ctx.violation("predicate|is_trivial_bitmask", "is_trivial_bitmask(%s, %s)=%s for clade %s of %d taxa" % (
+                bin(b.split_bitmask), bin(treemask), got, sorted(c), len(full)))
     pairs = [(rng.choice(allb), rng.choice(allb)) for _ in range(60)]
     for (b1, c1), (b2, c2) in pairs:
         ctx.ev("predicate-checked")
+        det = {"a": sorted(c1), "b": sorted(c2), "all": sorted(full), "is_rooted": repr(rooted)}
         want = compatible(c1, c2)
         got = b1.is_compatible_with(b2)
         if bool(got) != want or bool(b1.is_incompatible_with(b2)) == want:
-            ctx.violation("predicate|is_compatible_with|%s" % ("rooted" if rooted else "unrooted"),
-                          "is_compatible_with=%s, set definition says %s" % (got, want),
-                          {"a": sorted(c1), "b": sorted(c2), "all": sorted(full)})
+            ctx.violation("predicate|is_compatible_with|%s" % tag,
+                          "is_compatible_with=%s, set definition says %s" % (got, want), det)
         want_n = c1 <= c2
         got_n = b1.is_leafset_nested_within(b2)
         if bool(got_n) != want_n:
-            ctx.violation("predicate|is_leafset_nested_within", "got %s want %s" % (got_n, want_n),
-                          {"a": sorted(c1), "b": sorted(c2)})
+            ctx.violation("predicate|is_leafset_nested_within", "got %s want %s" % (got_n, want_n), det)
+        # the same questions with the other bipartition given as a plain bitmask, and through the static function
+        ctx.ev("predicate-int-argument-checked")
+        try:
+            got_i = b1.is_compatible_with(b2.split_bitmask)
+            got_ii = b1.is_incompatible_with(b2.split_bitmask)
+            got_ni = b1.is_leafset_nested_within(b2._leafset_bitmask)
+        except Exception as e:
+            ctx.unexpected("predicate-with-bitmask-argument", e, det)
+        else:
+            if bool(got_i) != want or bool(got_ii) == want:
+                ctx.violation("predicate|is_compatible_with|%s|bitmask-argument" % tag,
+                              "is_compatible_with(int)=%s, set definition says %s" % (got_i, want), det)
+            if bool(got_ni) != want_n:
+                ctx.violation("predicate|is_leafset_nested_within|bitmask-argument",
+                              "is_leafset_nested_within(int)=%s, set definition says %s" % (got_ni, want_n), det)
+        ctx.ev("predicate-static-checked")
+        got_s = Bipartition.is_compatible_bitmasks(b1.split_bitmask, b2.split_bitmask, treemask)
+        if bool(got_s) != want:
+            ctx.violation("predicate|is_compatible_bitmasks|%s" % tag,
+                          "is_compatible_bitmasks=%s, set definition says %s" % (got_s, want), det)
         ctx.nontrivial(("pred", sorted(c1), sorted(c2), rooted, len(full)))
+
     # whole-tree compatibility
-    for t, s2, bl in trees:
-        tsplits = [c for _, c in bl]
-        for b, c in [rng.choice(allb) for _ in range(10)]:
-            ctx.ev("predicate-checked")
-            want = all(compatible(c, c2) for c2 in tsplits)
-            for upd in (False, True):
+    def judge_tree(t, queries, upds, disc, tsplits_of):
+        for b, c in queries:
+            for upd in upds:
                 try:
-                    got = t.is_compatible_with_bipartition(b, is_bipartitions_updated=upd)
+                    if upd is None:
+                        got = t.is_compatible_with_bipartition(b)
+                    else:
+                        got = t.is_compatible_with_bipartition(b, is_bipartitions_updated=upd)
                 except Exception as e:
                     ctx.unexpected("is_compatible_with_bipartition", e)
                     continue
+                s_now, tsplits = tsplits_of()
+                ctx.ev("predicate-checked")
+                want = all(compatible(c, c2) for c2 in tsplits)
                 if bool(got) != want:
-                    ctx.violation("predicate|tree-compatible-with-bipartition|%s" % ("rooted" if rooted else "unrooted"),
+                    ctx.violation("predicate|tree-compatible-with-bipartition|%s%s" % (tag, disc),
                                   "tree says %s, definition says %s" % (got, want),
-                                  {"tree": ref.to_newick(s2), "clade": sorted(c)})
+                                  {"tree": ref.to_newick(s_now), "clade": sorted(c), "is_bipartitions_updated": repr(upd),
+                                   "is_rooted": repr(rooted)})
+    for t, s2, bl in trees:
+        fixed = (s2, [c for _, c in bl])
+        upds = [False, True]
+        if rng.random() < 0.5:
+            upds = [True, False]            # the encoding is current: the caller may say so first
+        judge_tree(t, [rng.choice(allb) for _ in range(10)], upds, "", lambda: fixed)
+
+    def current(t):
+        s_now = bridge.extract(t)
+        return s_now, [c for _s, c in ref.clades(s_now)]
+    # (a) a tree that was never encoded: whatever the caller claims, there is nothing to trust yet
+    sp = rng.choice([base] + others)
+    t = bridge.build_tree(sp, ns, rooted)
+    ctx.ev("tree-compat-never-encoded-checked")
+    judge_tree(t, [rng.choice(allb) for _ in range(4)], [rng.choice([True, None])], "|never-encoded-tree", lambda: current(t))
+    # (b) a tree modified after its encoding, asked with the default flag (= "not updated"): the structure it has now decides
+    t, s2, bl = trees[rng.randrange(len(trees))]
+    done = [st for st in (rng.choice(("move-subtree", "swap-taxa")) for _ in range(rng.randint(1, 2)))
+            if ext.apply_step(t, ns, st, rng) is not None]
+    if done:
+        s_mod = bridge.extract(t)
+        twin = bridge.build_tree(s_mod, ns, rooted)
+        twin.encode_bipartitions()
+        _s, twin_bl = edge_bips(twin)
+        queries = [rng.choice(twin_bl) for _ in range(4)] + [rng.choice(allb) for _ in range(4)]
+        rng.shuffle(queries)
+        ctx.ev("tree-compat-modified-tree-checked")
+        state["where"] = "re-encode"
+        try:
+            judge_tree(t, queries, [rng.choice([False, None])], "|tree-modified-since-its-encoding", lambda: current(t))
+        finally:
+            state["where"] = "encode"
+    else:
+        ctx.note("history-step-not-applicable")
